@@ -27,6 +27,7 @@ type PropConfig struct {
 	Level         string `json:"level"` // evidence level override ("other" for properties decided mainly by bounded stand-ins)
 	Explanation   string `json:"explanation"`
 	Callers       map[string][]string `json:"callers"` // callee -> the only functions allowed to call it (package sweep)
+	AssumedObligations map[string]string `json:"assumed_obligations"` // obligation -> why it is assumed instead of discharged (reported as an assumption, never counted)
 }
 
 type KnownFinding struct {
@@ -103,6 +104,12 @@ func checkMain(args []string) int {
 	for _, ex := range pc.Exclude {
 		knownFailing[ex] = true
 	}
+	for ex, why := range pc.AssumedObligations {
+		knownFailing[ex] = true
+		pc.Exclude = append(pc.Exclude, ex)
+		pc.Assumptions = append(pc.Assumptions, "ASSUMED obligation (not discharged) "+ex+": "+why)
+	}
+	sort.Strings(pc.Assumptions)
 	timeout := 10
 	all := false
 	if *tier == "thorough" {
